@@ -121,6 +121,7 @@ func (r *Raft) requestConfigChange(req configurationChangeRequest, timeout time.
 	future := &configurationChangeFuture{
 		req: req,
 	}
+	future.ShutdownCh = r.shutdownCh
 	future.init()
 	select {
 	case <-timer:
@@ -2260,6 +2261,7 @@ func (r *Raft) pickServer() *Server {
 // mainloop.
 func (r *Raft) initiateLeadershipTransfer(id *ServerID, address *ServerAddress) LeadershipTransferFuture {
 	future := &leadershipTransferFuture{ID: id, Address: address}
+	future.ShutdownCh = r.shutdownCh
 	future.init()
 
 	if id != nil && *id == r.localID {
